@@ -88,8 +88,17 @@ func (ts *TarsServer) Shutdown(ctx context.Context) error {
 		case <-ctx.Done():
 			return nil
 		case <-tk.C:
-			if ts.handle.CloseIdles(2) {
+			// CloseIdles writes the close message to every connection and blocks on a client
+			// that does not read: run it aside so that the context still ends Shutdown
+			idle := make(chan bool, 1)
+			go func() { idle <- ts.handle.CloseIdles(2) }()
+			select {
+			case <-ctx.Done():
 				return nil
+			case allClosed := <-idle:
+				if allClosed {
+					return nil
+				}
 			}
 		}
 	}
